@@ -98,6 +98,9 @@ class Recorder(object):
         elif event in ("subprocess.Popen", "os.system", "os.exec", "os.posix_spawn", "os.spawn", "os.fork", "os.forkpty",
                        "pty.spawn"):
             self.add("spawn", "x", "{} {}".format(event, str(args)[:80]))
+        elif event == "pickle.find_class":
+            # un-pickling resolves (and then calls) whatever callable the DATA names: data taken from the analysed source is being run
+            self.add("exec", "call", "pickle.find_class {}".format(str(args)[:80]))
         elif event.startswith("socket.") and event not in ("socket.__new__",):
             self.add("socket", "x", event)
 
